@@ -136,6 +136,10 @@ fn errno_name(e: Errno) -> String {
     }
 }
 
+/// `_POSIX_PIPE_BUF`: POSIX guarantees atomic pipe writes of at least this many bytes, whatever the
+/// implementation's own PIPE_BUF is (the oracle does not take the code's constant on trust).
+const POSIX_PIPE_BUF: usize = 512;
+
 // ------------------------------------------------------------------------------------------
 // (i) operation sequences on the real FIFO
 
@@ -280,7 +284,7 @@ impl OpWorld {
                                 if *m != written {
                                     self.flag(i, "count-differs-from-buffered");
                                 }
-                                if n <= PIPE_BUF && *m != n {
+                                if (n <= PIPE_BUF || n <= POSIX_PIPE_BUF) && *m != n {
                                     self.flag(i, "atomic-write-split");
                                 }
                                 if n > 0 && wr && *m == 0 {
@@ -302,7 +306,7 @@ impl OpWorld {
                                 if nb {
                                     self.flag(i, "nonblocking-write-pending");
                                 }
-                                if n <= PIPE_BUF && written != 0 {
+                                if (n <= PIPE_BUF || n <= POSIX_PIPE_BUF) && written != 0 {
                                     self.flag(i, "atomic-write-split");
                                 }
                             }
@@ -353,7 +357,7 @@ impl OpWorld {
                                 if m != written {
                                     self.flag(i, "count-differs-from-buffered");
                                 }
-                                if n <= PIPE_BUF && m != n {
+                                if (n <= PIPE_BUF || n <= POSIX_PIPE_BUF) && m != n {
                                     self.flag(i, "atomic-write-split");
                                 }
                                 format!("ok {m}")
@@ -483,6 +487,7 @@ fn run_ops(case: &str) -> (String, String) {
 fn boundary_sizes() -> Vec<usize> {
     let mut v = vec![0, 1, 2, 3, 7];
     for base in [
+        POSIX_PIPE_BUF,
         PIPE_BUF,
         PIPE_SIZE - PIPE_BUF,
         PIPE_SIZE,
